@@ -23,7 +23,8 @@ from .common import muted, rng, shard_slice
 
 LEVEL = 'exploration'
 RULE = ('loop-back runs of the real serializer/clock-recovery/deserializer over (f_sys/f_uart request 4..40 incl. odd and '
-        'non-integer, byte sequence, producer gap schedule, oblivious receiver ready schedule, instantiation order); '
+        'non-integer, a geometric boundary family 2**k-2..2**k+2 up to 2**11 (thorough 2**13) and real clock/baud pairs up to 5208, '
+        'one long-lived link of > 2**16 uart ticks (thorough 16 links > 2**17), byte sequence, producer gap schedule, oblivious receiver ready schedule, instantiation order); '
         'an evaluation is one accepted byte judged by the delivery and the line oracle; a non-trivial distinct case is '
         '(ratio request, byte value, previous byte value, phase of the acceptance cycle within the bit period, gap mode, '
         'ready mode) -- every accepted byte exercises framing, so all are non-trivial; distinct by content')
@@ -41,6 +42,13 @@ WIDE_RATIOS = [(4, 1), (17, 4), (9, 2), (5, 1), (6, 1), (7, 1), (8, 1), (9, 1), 
 FU_VARIANTS = [1, 2, 115200, 1e6, 3]          # the same ratio requested through different (f_sys, f_uart) float pairs
 REAL_PAIRS = [(50e6, 115200), (100e6, 921600), (12e6, 115200), (25e6, 1e6), (48e6, 3e6), (27e6, 1e6), (14.7456e6, 115200),
               (16e6, 1.5e6), (29e6, 2e6), (50e6, 230400 * 8)]
+# large-ratio family: around every power of two 2**k (the divider's counter gets one bit wider there) and real clock / baud pairs
+LARGE_K = {'quick': range(6, 12), 'thorough': range(6, 14)}
+LARGE_BANDS = {'quick': range(6, 13), 'thorough': range(6, 14)}     # bit periods around 2**k that must have been observed (real pairs included)
+LARGE_OFFSETS = [-2, -1, 0, 1, 2]
+LARGE_REAL = {'quick': [(50e6, 9600)], 'thorough': [(50e6, 9600), (100e6, 115200), (12e6, 9600), (50e6, 19200), (100e6, 9600), (25e6, 57600)]}
+# long-lived links: one link instance carries traffic for more uart clock ticks than any 8/10/12/16(/17)-bit counter can hold
+LONG_TICKS = {'quick': 2 ** 16 + 2 ** 12, 'thorough': 2 ** 17 + 2 ** 12}
 SPECIAL_BYTES = [0x00, 0xFF, 0x55, 0xAA, 0x01, 0x80, 0x7F, 0xFE, 0x0F, 0xF0]
 
 
@@ -400,7 +408,7 @@ def simulate(case, rnd=None):
     offered_since = None
     last_acc = None
     bound_bits = LATENCY_BOUND_BITS + rd.get('stall_bits', 0)      # the deadline is extended by the longest receiver stall
-    tail = (bound_bits + 4) * period
+    tail = int((bound_bits + case.get('tail_slack_bits', 4)) * period)      # recorded after the last acceptance (> the deadline)
     stall = None
     t = 0
     with muted():
@@ -790,6 +798,47 @@ def make_data(kind, n, rnd):
     return [rnd.getrandbits(8) for _ in range(n)]
 
 
+def plan_large_ratios(tier, rnd):
+    """Geometric / boundary family of LARGE ratios ("every ratio of at least 4"): 2**k + {-2..2} for every k up to 11 (quick: two
+    of the five offsets per k, drawn per seed; one for the top k) / 13 (thorough: all five), plus real clock / baud pairs up to
+    50 MHz / 9600 (= 5208 clocks per bit, quick) / 100 MHz / 9600 (thorough).  A byte costs ~11 bit periods, so each run carries few bytes (quick: 3 below 1000
+    clocks per bit, 2 above; thorough 4), always with a back-to-back pair, every other run with offer-phase gaps."""
+    specs = []
+    j = 0
+    for k in LARGE_K[tier]:
+        offs = LARGE_OFFSETS if tier != 'quick' else sorted(rnd.sample(LARGE_OFFSETS, 1 if k == max(LARGE_K[tier]) else 2))
+        for o in offs:
+            r = 2 ** k + o
+            fu = FU_VARIANTS[j % len(FU_VARIANTS)]
+            n = 4 if tier != 'quick' else 3 if r < 1000 else 2
+            specs.append(dict(fs=r * fu, fu=fu, kind=['random', 'special', 'toggle'][j % 3], n=n, gap=['none', 'phase'][j % 2],
+                              ready=['always', 'rand', 'always', 'worst'][j % 4], order=j % 3, cls='large_ratio', tail_slack_bits=0.25))
+            j += 1
+    for fs, fu in LARGE_REAL[tier]:
+        specs.append(dict(fs=fs, fu=fu, kind='random', n=2 if tier == 'quick' else 4, gap=['none', 'phase'][j % 2], ready='always',
+                          order=j % 3, cls='large_ratio', tail_slack_bits=0.25))
+        j += 1
+    return specs
+
+
+def plan_long_lived(tier, rnd):
+    """LONG-LIVED links ("every byte", whatever the history): ONE link instance stays alive for more than 2**16 (quick) / 2**17
+    (thorough) uart clock ticks, i.e. past the wrap-around of any 8/10/12/16-bit counter of ticks, bits, bytes or clocks inside
+    the blocks.  quick: one run at the fastest legal ratio, back-to-back, receiver always ready (the cheapest way to get
+    there); thorough: 16 runs over ratios 4..8, all gap modes and receiver pacings."""
+    specs = []
+    if tier == 'quick':
+        specs.append(dict(fs=4, fu=1, kind='random', n=LONG_TICKS[tier] // 11 + 1, gap='none', ready='always', order=0, cls='long_lived'))
+    else:
+        gapm = ['none', 'one', 'mixed', 'phase']
+        for j in range(16):
+            r = [4, 4, 5, 6, 4, 8, 4, 5][j % 8]
+            g = gapm[j % 4]
+            specs.append(dict(fs=r, fu=1, kind=['random', 'repeats', 'special'][j % 3], n=LONG_TICKS[tier] // 11 + 1, gap=g,      # >= 11 ticks per byte
+                              ready=['always', 'rand', 'worst', 'rand_long'][(j // 4) % 4], order=j % 3, cls='long_lived'))
+    return specs
+
+
 def plan(tier, seed):
     """The list of case specifications (deterministic given tier and seed); data/gaps are expanded per case."""
     rnd = rng(seed, 'C17', 'plan', tier)
@@ -836,6 +885,8 @@ def plan(tier, seed):
             specs.append(dict(fs=r2 * fu / 2, fu=fu, kind='toggle', n=6, gap=['none', 'none', 'one'][k % 3], ready=['always', 'rand'][k % 2], order=k % 3))
         for k, (fs, fu) in enumerate(REAL_PAIRS):        # real clock / baud pairs (ratios up to 434)
             specs.append(dict(fs=fs, fu=fu, kind='toggle', n=3 if fs / fu > 200 else 6, gap='none', ready='always', order=k % 3))
+        specs += plan_large_ratios(tier, rnd)
+        specs += plan_long_lived(tier, rnd)
     else:
         readymodes = readymodes + ['eof_stall', 'sparse', 'rand_long', 'late_take', 'withdraw']
         ratios = [(r, 1) for r in range(4, 41)] + [(17, 4), (9, 2), (50e6, 115200 * 40), (33, 2), (50e6, 115200 * 20), (123, 10)]
@@ -857,6 +908,8 @@ def plan(tier, seed):
                 specs.append(dict(fs=r2 * fu / 2, fu=fu, kind='toggle', n=12, gap=gapmodes[(k + v) % 5], ready=readymodes[(k + v) % 3], order=v % 3))
         for k, (fs, fu) in enumerate(REAL_PAIRS + [(50e6, 9600), (100e6, 115200)]):
             specs.append(dict(fs=fs, fu=fu, kind='toggle', n=4 if fs / fu > 200 else 12, gap='none', ready='always', order=k % 3))
+        specs += plan_large_ratios(tier, rnd)
+        specs += plan_long_lived(tier, rnd)
     for k, s in enumerate(specs):
         s['id'] = k
     return specs
@@ -938,6 +991,10 @@ def expand(spec, seed):
                 ready=ready, gap_mode=spec['gap'], kind=spec['kind'])
     if spec.get('env'):
         case['env'] = dict(spec['env'])
+    if spec.get('cls'):
+        case['cls'] = spec['cls']
+    if spec.get('tail_slack_bits') is not None:
+        case['tail_slack_bits'] = spec['tail_slack_bits']
     if spec.get('tx') == 'msggen':
         case['tx'] = 'msggen'
         case['judge_n'] = spec['judge_n']
@@ -1042,6 +1099,16 @@ def account(run, case, tr, agg, group=None, chan=None):
         base = 12 * period
         agg['stalled_deliveries'] += sum(1 for x in obs['latencies'] if x > base + 2 * period)
     agg['ready_low_cycles'] += tr['dr'].count(0)
+    if case.get('cls') == 'large_ratio':
+        b = '2**%d..2**%d-1 clocks per bit' % (period.bit_length() - 1, period.bit_length())
+        for f, x in (('runs', 1), ('accepted', obs['accepted']), ('delivered', obs['delivered']), ('line_frames', obs['frames']),
+                     ('back_to_back', obs['valid_held_acceptances'])):
+            agg['large']['%s: %s' % (b, f)] = agg['large'].get('%s: %s' % (b, f), 0) + x      # flat, so that shards add up
+        agg['large_periods']['%d' % period] = agg['large_periods'].get('%d' % period, 0) + obs['delivered']
+    if case.get('cls') == 'long_lived':
+        agg['long']['%s/%s gap=%s ready=%s #%d' % (fs, fu, case.get('gap_mode'), rname, len(agg['long']))] = dict(
+            bytes_accepted=obs['accepted'], bytes_delivered=obs['delivered'], line_frames=obs['frames'],
+            uart_ticks=tr['cycles'] // period, system_clocks=tr['cycles'])
     if case.get('tx') == 'msggen':
         agg['msggen'] += obs['accepted']
     if case.get('env'):
@@ -1086,7 +1153,7 @@ def run_check(run, tier, seed, shard):
     specs = shard_slice(plan(tier, seed), shard)
     deadline = time.time() + (420 if tier == 'quick' else 2400)
     agg = dict(per_ratio={}, gap_modes={}, ready_modes={}, back_to_back=0, ready_low_cycles=0, stalls=[], latency_hist={}, stalled_deliveries=0,
-               sample_hist={}, acc_ratio={}, compositions={}, overlap_cycles=0, env={}, msggen=0)
+               sample_hist={}, acc_ratio={}, compositions={}, overlap_cycles=0, env={}, msggen=0, large={}, large_periods={}, long={})
     skipped = 0
     for spec in specs:
         if time.time() > deadline:
@@ -1135,6 +1202,10 @@ def run_check(run, tier, seed, shard):
     run.extra['transfers_cross_checked_by_env_block_placement'] = agg['env']
     run.extra['cycles_with_two_links_mid_frame'] = agg['overlap_cycles']
     run.extra['deliveries_stalled_over_2_bit_periods'] = agg['stalled_deliveries']
+    run.extra['large_ratio_class_by_band'] = agg['large']
+    run.extra['large_ratio_class_delivered_by_bit_period'] = agg['large_periods']
+    for k, d in agg['long'].items():
+        run.extra['long_lived_link ' + ('' if shard is None else 'shard%d ' % shard[0]) + k] = d
     if shard is None:
         post_merge(run, tier, seed)
 
@@ -1157,6 +1228,20 @@ def post_merge(run, tier, seed):
         run.inconclusive.append('no cycle was observed in which two links were receiving at the same time')
     if not run.extra.get('ready_low_cycles'):
         run.inconclusive.append('the receiver was never not-ready')
+    bands = run.extra.get('large_ratio_class_by_band', {})
+    for k in LARGE_BANDS[tier]:
+        # 2**k-1 and 2**k-2 realise a period just below 2**k
+        if not (bands.get('2**%d..2**%d-1 clocks per bit: delivered' % (k, k + 1)) or bands.get('2**%d..2**%d-1 clocks per bit: delivered' % (k - 1, k))):
+            run.inconclusive.append('large-ratio class: no byte was delivered at a bit period around 2**%d clocks' % k)
+    if not sum(v for k, v in bands.items() if k.endswith(': back_to_back')):
+        run.inconclusive.append('large-ratio class: no back-to-back acceptance')
+    longs = [v for k, v in run.extra.items() if k.startswith('long_lived_link ')]
+    best = max(longs, key=lambda d: d['uart_ticks']) if longs else dict(bytes_delivered=0, uart_ticks=0)
+    run.extra['longest_single_link_history'] = dict(bytes=best['bytes_delivered'], uart_ticks=best['uart_ticks'], links=len(longs),
+                                                     links_past_target=sum(1 for d in longs if d['uart_ticks'] >= LONG_TICKS[tier]))
+    if best['uart_ticks'] < LONG_TICKS[tier] or best['bytes_delivered'] < LONG_TICKS[tier] // 16:
+        run.inconclusive.append('long-lived class: the longest single link lived %d uart ticks / %d bytes (target %d ticks)' % (
+            best['uart_ticks'], best['bytes_delivered'], LONG_TICKS[tier]))
 
 
 def replay(run, case):
